@@ -83,7 +83,7 @@ Steps == [k : {"add_field"}, t : {"integer", "string"}]
          \cup [k : {"acf"}, op : {"sum", "avg", "min", "multiply", "format", "join", "constant"}, src : {<<"a">>, <<"a", "c">>, <<"b">>}]
          \cup [k : {"delete_b", "select_a", "rename_a", "rename_swap", "set_type_a_number", "set_type_a_string", "filter", "sort", "dedup",
                     "duplicate", "delete_first", "concatenate", "concat_head", "concat_tail", "source", "unpivot_b", "find_replace_b", "validate",
-                    "set_pk_a", "set_pk_ab", "concat_ren", "to_int_clear", "join_rownum_full", "sql_flag"}]
+                    "set_pk_a", "set_pk_ab", "concat_ren", "to_int_clear", "join_rownum_full", "sql_flag", "rename_res"}]
          \cup [k : {"acf_chain"}, first : {<<"a">>, <<"a", "c">>}, op2 : {"sum", "min", "format"}]       \* one call, two fields: cf = sum(first), then cf2 = op2(cf, a)
          \cup [k : {"join"}, agg : {"sum", "avg", "median", "count", "first", "array", "max"}, f : {"a", "b", "n"}]
 
@@ -144,6 +144,8 @@ Enabled(s, pkg) ==
                        /\ s.agg \in {"sum", "avg", "median", "max"} => Numeric(Get(pkg[1], s.f)) /\ Get(pkg[1], s.f).tags \subseteq {"int", "num"}
     [] s.k = "join_rownum_full" -> /\ Len(pkg) = 2 /\ pkg[1].name = "res_1" /\ pkg[2].name = "res_2" /\ Has(pkg[1], "b") /\ ~Has(pkg[2], "j")
     [] s.k = "sql_flag" -> pkg[1].name = "res_1" /\ ~Has(pkg[1], "_u") /\ pkg[1].pk = <<>>      \* (a declared key becomes a UNIQUE constraint of the table; the inputs repeat values of a)
+    \* update_resource(0, name='rn'): the caller picks the name; a name that is taken is the caller's error (the step does not check)
+    [] s.k = "rename_res" -> \A i \in DOMAIN pkg : pkg[i].name # "rn"
     [] s.k = "validate" -> TRUE
 
 Apply(s, pkg) ==
@@ -175,6 +177,7 @@ Apply(s, pkg) ==
     [] s.k = "to_int_clear" -> [pkg EXCEPT ![1].fields = [i \in DOMAIN @ |-> IF @[i].name \in {"b", "z"}
                                                                               THEN F(@[i].name, "integer", IF @[i].type = "string" THEN {"null"} ELSE @[i].tags)
                                                                               ELSE @[i]]]
+    [] s.k = "rename_res" -> [pkg EXCEPT ![1].name = "rn"]                \* fields, key and rows stay; later steps address it by the new name
     [] s.k = "find_replace_b" -> pkg                                     \* nulls stay null, text stays text
     [] s.k = "unpivot_b" -> [pkg EXCEPT ![1] = [WithFields(@, SelectSeq(@.fields, LAMBDA f : f.name # "b")) EXCEPT
                                                    !.fields = @ \o <<F("k", "string", {"str"}), F("v", "string", {"str", "null"})>>]]
